@@ -62,6 +62,18 @@ CLAIMS["C10"] = {
     "note": TB + "Rust's i32/f64 Display and FromStr are trusted (the f64 shape is an explicit hypothesis of float_text_valid, checked at run time); Name bytes vs chars as in C23.",
 }
 
+CLAIMS["C03"] = {
+    "technique": "Lean 4 proof over a DFA model with translator-regenerated character tables + exhaustive correspondence + reference-grammar oracle",
+    "text": "Theorems for ALL inputs on the lexer model: items concatenate to the input and the stream ends with EOF (lex_concat, advance_concat — proved "
+            "for the generic driver, i.e. for any transition table), every item is non-empty and consumes input (advance_progress ⇒ termination), exact "
+            "token-limit behaviour (token_limit_exact), maximal munch for names and punctuators (lex_name, lex_punctuator), and the regenerated tables "
+            "are the grammar's (tables_are_spec). The 25-state transition function is hand-written and tied by correspondence on every string ≤4/5 over "
+            "one representative per character class (24 symbols), deeper targeted alphabets for escapes/block strings/numbers (≈2.2M strings quick), random "
+            "pieces and the repo's test data. PARTIAL: number/string token kinds and 'no error ⟺ valid token sequence' are decided by an independent "
+            "reference lexer of the October-2021 grammar run on the implementation, not yet by a theorem. One known finding (raw control characters).",
+    "note": TB + "The cursor (byte index/offset/pending char) is abstracted to consumed-so-far/rest; byte indices are recomputed from UTF-8 lengths and compared with the real token indices.",
+}
+
 ALL = [f"C{i:02d}" for i in range(1, 34)]
 NOT_APPLICABLE = {p: "check not built yet in this session (planned, see DESIGN.md §9); not a claim that the technique cannot apply"
                   for p in ALL if p not in CLAIMS}
